@@ -220,3 +220,44 @@ Definition t1_format_obs (hr0 hr1 : Z) (m : list Z) (wipe : option Z) :=
   let p := t1_format_vendor hr0 hr1 m wipe in
   let m' := apply_ws m (snd p) in
   (fst p, snd p, m', t1_fresh hr0 m', t1_capacity hr0 m').
+
+(* ---- several assignments tag.ndef.octets = d on the same tag object (see Model/T2T.v t2_attempt):
+        the memory reader keeps (data_from_tag, data_in_cache); the readable image is the memory itself ---- *)
+Definition t1_attempt (hr0 : Z) (m : list Z) (L : layout) (from cache d : list Z) (k : option nat) (f : fate)
+  : res unit * (list Z * list Z * list Z) * list write :=
+  if negb (l_wr L) then (Crash AttributeErr, (m, from, cache), [])
+  else if l_cap L <? len d then (Err ValueError, (m, from, cache), [])
+  else run_attempt (t1_unit hr0) (len m) m from cache (t1_phases L d) k f.
+Fixpoint t1_attempts (hr0 : Z) (L : layout) (d : list Z) (faults : list (nat * fate)) (st : list Z * list Z * list Z)
+  : list Z * list Z * list Z :=
+  match faults with
+  | [] => st
+  | (k, f) :: r =>
+    let '(m, from, cache) := st in
+    t1_attempts hr0 L d r (snd (fst (t1_attempt hr0 m L from cache d (Some k) f)))
+  end.
+Definition t1_after (hr0 : Z) (m d : list Z) (faults : list (nat * fate)) : option (layout * (list Z * list Z * list Z)) :=
+  match t1_reader hr0 m with
+  | Ok (Some L) => Some (L, t1_attempts hr0 L d faults (m, m, m))
+  | _ => None
+  end.
+Definition t1_retry (hr0 : Z) (m d : list Z) (faults : list (nat * fate)) : option (res unit * list Z * list write) :=
+  match t1_after hr0 m d faults with
+  | Some (L, (m1, from, cache)) =>
+    let p := t1_attempt hr0 m1 L from cache d None Lost in Some (fst (fst p), m1, snd p)
+  | None => None
+  end.
+Definition t1_retry_obs (hr0 : Z) (m d : list Z) (k1 : nat) (f : fate) :=
+  match t1_after hr0 m d [(k1, f)] with
+  | Some (L, (m1, from, cache)) =>
+    let p := t1_attempt hr0 m1 L from cache d None Lost in
+    Some (m1, from, cache, fst (fst p), snd p, map (t1_fresh hr0) (cut_mems m1 (snd p)))
+  | None => None
+  end.
+Definition t1_rewrite_obs (hr0 : Z) (m d1 : list Z) (k1 : nat) (f : fate) (d2 : list Z) :=
+  match t1_after hr0 m d1 [(k1, f)] with
+  | Some (L, (m1, from, cache)) =>
+    let p := t1_attempt hr0 m1 L from cache d2 None Lost in
+    Some (m1, fst (fst p), snd p, map (t1_fresh hr0) (cut_mems m1 (snd p)))
+  | None => None
+  end.
